@@ -28,33 +28,15 @@ theorem zipSome_eq_none {α β γ : Type} {f : α → β → γ} {a : Option α}
 /-! ## Slots of struct fields -/
 
 theorem notPtr_of_isBare {g : GoTy} (h : isBare g = true) : notPtr g = true := by
-  cases g <;> simp [isBare, bareNil] at h <;> rfl
+  cases g <;> simp [isBare] at h <;> rfl
 
 theorem isBare_ptr (g : GoTy) : isBare (.ptr g) = false := rfl
-
-theorem bareNil_isSome {g : GoTy} (h : isBare g = true) : ∃ nv, bareNil g = some nv := by
-  unfold isBare at h
-  cases hb : bareNil g with
-  | none => simp [hb] at h
-  | some nv => exact ⟨nv, rfl⟩
-
-/-- the nil of a bare nilable type is its own normal form and nothing but nil -/
-theorem bareNil_cases {g : GoTy} {nv : GoVal} (h : bareNil g = some nv) : nv = .nilSlice ∨ nv = .nilIface := by
-  cases g <;> simp [bareNil] at h
-  · left; exact h.symm
-  · rename_i f; cases f <;> simp at h; right; exact h.symm
-  · right; exact h.symm
-  · left; exact h.symm
-
-theorem bareNil_norm {g : GoTy} {nv : GoVal} (h : bareNil g = some nv) : nv.norm = nv := by
-  rcases bareNil_cases h with rfl | rfl <;> rfl
 
 theorem ptrElem_some {g g1 : GoTy} (h : ptrElem g = some g1) : g = .ptr g1 := by
   cases g <;> simp [ptrElem] at h
   rw [h]
 
-theorem fslot_value {g : GoTy} {o n : Bool} (h : fslot g o n = .value) :
-    o = false ∧ (n = false ∨ isBare g = false) := by
+theorem fslot_value {g : GoTy} {o n : Bool} (h : fslot g o n = .value) : o = false := by
   unfold fslot at h
   cases o <;> cases hp : ptrElem g <;> cases n <;> cases hb : isBare g <;> simp [hp, hb] at h ⊢
 
@@ -68,11 +50,6 @@ theorem fslot_optBare {g : GoTy} {o n : Bool} (h : fslot g o n = .optBare) :
   unfold fslot at h
   cases o <;> cases hp : ptrElem g <;> cases n <;> cases hb : isBare g <;> simp [hp, hb] at h ⊢
 
-theorem fslot_nulBare {g : GoTy} {o n : Bool} (h : fslot g o n = .nulBare) :
-    o = false ∧ n = true ∧ isBare g = true := by
-  unfold fslot at h
-  cases o <;> cases hp : ptrElem g <;> cases n <;> cases hb : isBare g <;> simp [hp, hb] at h ⊢
-
 /-- what the struct iterator shows of one field -/
 def viewField (g : GoTy) (f : Field) (x : GoVal) : Option TL :=
   match fslot g f.opt f.nullable with
@@ -82,15 +59,18 @@ def viewField (g : GoTy) (f : Field) (x : GoVal) : Option TL :=
      | .nilPtr => some .absent
      | .ptr v => view g1 f.ty f.nullable v
      | _ => none)
-  | .optBare => if bareNil g = some x then some .absent else view g f.ty false x
-  | .nulBare => if bareNil g = some x then some .null else view g f.ty false x
+  | .optBare => if x = .nilBare then some .absent else view g f.ty false x
   | .bad => none
+
+theorem view_false_nilBare (g : GoTy) (t : Ty) : view g t false .nilBare = none := by
+  simp [view]
 
 theorem viewFields_cons (n : Bytes) (g : GoTy) (gfs : GoFields) (f : Field) (fs : List Field) (x : GoVal)
     (xs : GoVals) :
     viewFields (.cons n g gfs) (f :: fs) (.cons x xs) =
       zipSome (TLKVs.cons f.name) (viewField g f x) (viewFields gfs fs xs) := by
-  cases x <;> simp only [viewFields, viewField] <;> cases fslot g f.opt f.nullable <;> rfl
+  cases x <;> simp only [viewFields, viewField] <;> cases fslot g f.opt f.nullable <;>
+    simp only [reduceCtorEq, if_false]
 
 def wtField (g : GoTy) (f : Field) (x : GoVal) : Bool :=
   match fslot g f.opt f.nullable with
@@ -100,22 +80,20 @@ def wtField (g : GoTy) (f : Field) (x : GoVal) : Bool :=
      | .nilPtr => true
      | .ptr v => wt g1 f.ty f.nullable v
      | _ => false)
-  | .optBare => bareNil g = some x || wt g f.ty false x
-  | .nulBare => bareNil g = some x || wt g f.ty false x
+  | .optBare => x = .nilBare || (decide (x ≠ .nilSlice) && wt g f.ty false x)
   | .bad => false
 
 theorem wtFields_cons (n : Bytes) (g : GoTy) (gfs : GoFields) (f : Field) (fs : List Field) (x : GoVal)
     (xs : GoVals) :
     wtFields (.cons n g gfs) (f :: fs) (.cons x xs) = (wtField g f x && wtFields gfs fs xs) := by
-  cases x <;> simp only [wtFields, wtField] <;> cases fslot g f.opt f.nullable <;> rfl
+  cases x <;> simp only [wtFields, wtField] <;> cases fslot g f.opt f.nullable <;> simp
 
 /-- `compatFields`, by slot -/
 def compatField (g : GoTy) (f : Field) : Bool :=
   match fslot g f.opt f.nullable with
   | .value => compatible g f.ty f.nullable
-  | .optPtr g1 => compatible g1 f.ty f.nullable
+  | .optPtr g1 => (!f.nullable || !notPtr g1) && compatible g1 f.ty f.nullable
   | .optBare => compatible g f.ty false
-  | .nulBare => compatible g f.ty false
   | .bad => false
 
 theorem compatFields_cons (n : Bytes) (g : GoTy) (gfs : GoFields) (f : Field) (fs : List Field) :
@@ -124,15 +102,14 @@ theorem compatFields_cons (n : Bytes) (g : GoTy) (gfs : GoFields) (f : Field) (f
   congr 1; congr 1
   unfold compatField fslot
   cases ho : f.opt <;> cases hn : f.nullable <;> cases g <;>
-    simp [isBare, bareNil, ptrElem] <;> (try (rename_i lf; cases lf <;> simp))
+    simp [isBare, ptrElem] <;> (try (rename_i lf; cases lf <;> simp))
 
 /-- what is stored into one field -/
 def assignField (g : GoTy) (f : Field) (v : TL) : Option GoVal :=
   match fslot g f.opt f.nullable with
   | .value => assignC g f.ty f.nullable v
   | .optPtr g1 => if v = .absent then some GoVal.nilPtr else (assignC g1 f.ty f.nullable v).map GoVal.ptr
-  | .optBare => if v = .absent then bareNil g else assignC g f.ty false v
-  | .nulBare => if v = .null then bareNil g else assignC g f.ty false v
+  | .optBare => if v = .absent then some GoVal.nilBare else assignC g f.ty false v
   | .bad => none
 
 theorem assignFields_cons (n : Bytes) (g : GoTy) (gfs : GoFields) (f : Field) (fs : List Field) (k : Bytes)
@@ -147,7 +124,6 @@ def intsFitField (g : GoTy) (f : Field) (v : TL) : Bool :=
   | .value => intsFit g f.ty f.nullable v
   | .optPtr g1 => intsFit g1 f.ty f.nullable v
   | .optBare => intsFit g f.ty false v
-  | .nulBare => intsFit g f.ty false v
   | .bad => true
 
 theorem intsFitFields_cons (n : Bytes) (g : GoTy) (gfs : GoFields) (f : Field) (fs : List Field) (k : Bytes)
@@ -156,71 +132,125 @@ theorem intsFitFields_cons (n : Bytes) (g : GoTy) (gfs : GoFields) (f : Field) (
   conv => lhs; unfold intsFitFields
   rfl
 
-/-! ## Pointers -/
+/-! ## Pointers and bare nilable types -/
 
+/-- the three ways a value slot can be shaped: two pointers (one of them more than needed), one pointer, none -/
 theorem unptr_some {nul : Bool} {g g0 : GoTy} (h : unptr nul g = some g0) :
-    g = .ptr g0 ∨ (nul = false ∧ g = g0 ∧ notPtr g = true) := by
+    g = .ptr (.ptr g0) ∨ (g = .ptr g0 ∧ notPtr g0 = true) ∨
+      (g = g0 ∧ notPtr g0 = true ∧ (nul = false ∨ isBare g0 = true)) := by
   cases g with
-  | ptr g1 => left; simp [unptr] at h; rw [h]
-  | _ => right; cases nul <;> simp [unptr] at h; subst h; exact ⟨rfl, rfl, rfl⟩
+  | ptr g1 =>
+    cases g1 with
+    | ptr b => left; simp [unptr] at h; rw [h]
+    | _ => right; left; simp [unptr] at h; subst h; exact ⟨rfl, rfl⟩
+  | _ =>
+    right; right
+    cases nul <;> simp [unptr, isBare] at h <;> (try subst h) <;> simp [notPtr, isBare]
+    all_goals (first | (obtain ⟨h1, h2⟩ := h; subst h2; simp [h1]) | skip)
 
 theorem wrapFor_notPtr {g : GoTy} (x : GoVal) (h : notPtr g = true) : wrapFor g x = x := by
   cases g <;> first | rfl | (simp [notPtr] at h)
 
-theorem unptr_notPtr {g : GoTy} (h : notPtr g = true) : unptr false g = some g := by
+theorem wrapFor_ptr {g : GoTy} (x : GoVal) (h : notPtr g = true) : wrapFor (.ptr g) x = .ptr x := by
   cases g <;> first | rfl | (simp [notPtr] at h)
 
-theorem view_wrapFor {nul : Bool} {g g0 : GoTy} (t : Ty) (x : GoVal) (h : unptr nul g = some g0) :
-    view g t nul (wrapFor g x) = view g0 t false x := by
-  rcases unptr_some h with rfl | ⟨rfl, rfl, hn⟩
+theorem unptr_notPtr {g : GoTy} (h : notPtr g = true) : unptr false g = some g := by
+  cases g with
+  | ptr _ => simp [notPtr] at h
+  | _ => simp [unptr]
+
+theorem unptr_ptr {g : GoTy} (nul : Bool) (h : notPtr g = true) : unptr nul (.ptr g) = some g := by
+  cases g <;> first | rfl | (simp [notPtr] at h)
+
+theorem unptr_bare {g : GoTy} (nul : Bool) (h : isBare g = true) : unptr nul g = some g := by
+  cases g <;> simp [isBare] at h <;> simp [unptr, isBare]
+  rename_i lf; cases lf <;> simp at h ⊢
+
+/-- a bare nilable type reads the same in a nullable slot, nil apart -/
+theorem view_bare_nul {g : GoTy} (t : Ty) (x : GoVal) (hb : isBare g = true) (h1 : x ≠ .nilBare)
+    (h2 : x ≠ .nilSlice) : view g t true x = view g t false x := by
+  have hnp := notPtr_of_isBare hb
+  cases x <;> simp [view, hb] at h1 h2 ⊢ <;> cases g <;> simp [isBare, notPtr] at hb hnp ⊢
+
+theorem wt_bare_nul {g : GoTy} (t : Ty) (x : GoVal) (hb : isBare g = true) (h1 : x ≠ .nilBare)
+    (h2 : x ≠ .nilSlice) : wt g t true x = wt g t false x := by
+  have hnp := notPtr_of_isBare hb
+  cases x <;> simp [wt, hb] at h1 h2 ⊢ <;> cases g <;> simp [isBare, notPtr] at hb hnp ⊢
+
+theorem view_wrapFor {nul : Bool} {g g0 : GoTy} (t : Ty) (x : GoVal) (h : unptr nul g = some g0)
+    (h1 : x ≠ .nilBare) (h2 : x ≠ .nilSlice) : view g t nul (wrapFor g x) = view g0 t false x := by
+  rcases unptr_some h with rfl | ⟨rfl, hn⟩ | ⟨rfl, hn, hnb⟩
   · simp [wrapFor, view]
+  · rw [wrapFor_ptr x hn]; simp [view]
   · rw [wrapFor_notPtr x hn]
+    rcases hnb with rfl | hb
+    · rfl
+    · cases nul
+      · rfl
+      · exact view_bare_nul t x hb h1 h2
+
+theorem wt_wrapFor {nul : Bool} {g g0 : GoTy} (t : Ty) (x : GoVal) (h : unptr nul g = some g0)
+    (h1 : x ≠ .nilBare) (h2 : x ≠ .nilSlice) : wt g t nul (wrapFor g x) = wt g0 t false x := by
+  rcases unptr_some h with rfl | ⟨rfl, hn⟩ | ⟨rfl, hn, hnb⟩
+  · simp [wrapFor, wt]
+  · rw [wrapFor_ptr x hn]; simp [wt]
+  · rw [wrapFor_notPtr x hn]
+    rcases hnb with rfl | hb
+    · rfl
+    · cases nul
+      · rfl
+      · exact wt_bare_nul t x hb h1 h2
+
+theorem compatible_bare_nul {g : GoTy} (t : Ty) (hb : isBare g = true) :
+    compatible g t true = compatible g t false := by
+  cases g <;> simp [isBare] at hb <;> simp [compatible]
+  rename_i lf; cases lf <;> simp at hb ⊢
+
+/-- a compatible type that is not a pointer sits in a slot that is not nullable, or is a bare nilable type -/
+theorem compatible_notPtr_nul {g : GoTy} {t : Ty} (hn : notPtr g = true)
+    (h : compatible g t true = true) : isBare g = true := by
+  cases g <;> simp [compatible, notPtr, isBare] at h hn ⊢
+  rename_i lf; cases lf <;> simp at h ⊢
 
 theorem compatible_of_unptr {nul : Bool} {g g0 : GoTy} (t : Ty) (h : unptr nul g = some g0)
     (hc : compatible g t nul = true) : compatible g0 t false = true := by
-  rcases unptr_some h with rfl | ⟨rfl, rfl, _⟩
+  rcases unptr_some h with rfl | ⟨rfl, _⟩ | ⟨rfl, _, hnb⟩
+  · simp only [compatible, Bool.and_eq_true] at hc; exact hc.2.2
   · simp only [compatible, Bool.and_eq_true] at hc; exact hc.2
-  · exact hc
-
-theorem notPtr_of_unptr {nul : Bool} {g g0 : GoTy} (t : Ty) (h : unptr nul g = some g0)
-    (hc : compatible g t nul = true) : notPtr g0 = true := by
-  rcases unptr_some h with rfl | ⟨rfl, rfl, hn⟩
-  · simp only [compatible, Bool.and_eq_true] at hc; exact hc.1
-  · exact hn
-
-theorem wt_wrapFor {nul : Bool} {g g0 : GoTy} (t : Ty) (x : GoVal) (h : unptr nul g = some g0) :
-    wt g t nul (wrapFor g x) = wt g0 t false x := by
-  rcases unptr_some h with rfl | ⟨rfl, rfl, hn⟩
-  · simp [wrapFor, wt]
-  · rw [wrapFor_notPtr x hn]
-
-/-- a compatible type that is not a pointer sits in a slot that is not nullable -/
-theorem compatible_notPtr_nul {g : GoTy} {t : Ty} {nul : Bool} (hn : notPtr g = true)
-    (h : compatible g t nul = true) : nul = false := by
-  cases nul
-  · rfl
-  · cases g <;> simp [compatible, notPtr] at h hn
-
-/-- a compatible type in a nullable slot is a pointer -/
-theorem compatible_nul {g : GoTy} {t : Ty} (h : compatible g t true = true) :
-    ∃ g0, g = .ptr g0 ∧ notPtr g0 = true ∧ compatible g0 t false = true := by
-  cases g <;> simp [compatible] at h
-  exact ⟨_, rfl, h.1, h.2⟩
+  · rcases hnb with rfl | hb
+    · exact hc
+    · cases nul
+      · exact hc
+      · rwa [compatible_bare_nul t hb] at hc
 
 theorem compatible_unptr_some {g : GoTy} {t : Ty} {nul : Bool} (h : compatible g t nul = true) :
     ∃ g0, unptr nul g = some g0 ∧ compatible g0 t false = true ∧ notPtr g0 = true := by
-  cases hg : notPtr g
-  · cases g <;> simp [notPtr] at hg
-    simp only [compatible, Bool.and_eq_true] at h
-    exact ⟨_, rfl, h.2, h.1⟩
-  · have := compatible_notPtr_nul hg h
-    subst this
-    exact ⟨g, unptr_notPtr hg, h, hg⟩
+  cases g with
+  | ptr g1 =>
+    cases hg1 : notPtr g1
+    · cases g1 <;> simp [notPtr] at hg1
+      rename_i b
+      simp only [compatible, Bool.and_eq_true, notPtr, Bool.or_false, Bool.false_or] at h
+      exact ⟨b, rfl, h.2.2, h.2.1⟩
+    · simp only [compatible, Bool.and_eq_true] at h
+      exact ⟨g1, unptr_ptr nul hg1, h.2, hg1⟩
+  | _ =>
+    cases nul
+    · exact ⟨_, unptr_notPtr rfl, h, rfl⟩
+    · have hb := compatible_notPtr_nul rfl h
+      exact ⟨_, unptr_bare true hb, by rwa [compatible_bare_nul _ hb] at h, rfl⟩
 
-/-- a present value in a slot that is a pointer: a fresh pointer to what the type behind it gets -/
+/-- a compatible type in a nullable slot is a pointer or a bare nilable type -/
+theorem compatible_nul {g : GoTy} {t : Ty} (h : compatible g t true = true) :
+    (∃ g1, g = .ptr g1) ∨ isBare g = true := by
+  cases hg : notPtr g
+  · left; cases g <;> simp [notPtr] at hg; exact ⟨_, rfl⟩
+  · right; exact compatible_notPtr_nul hg h
+
+/-- what sits behind the pointer of a slot is a slot that is not nullable -/
 theorem compatible_ptr {g : GoTy} {t : Ty} {nul : Bool} (h : compatible (.ptr g) t nul = true) :
-    notPtr g = true ∧ compatible g t false = true := by
-  simpa [compatible] using h
+    compatible g t false = true := by
+  simp only [compatible, Bool.and_eq_true] at h; exact h.2
 
 /-! ## Widths -/
 
